@@ -224,7 +224,7 @@ func (c *ctx) mpt(s mptSpec) *PathResult {
 		reqs := strings.Join(s.reqs(l), " ; ")
 		if ws := badBy[l]; len(ws) > 0 {
 			for _, w := range ws {
-				c.r.Bad(s.rule+"/"+where+"/"+l, c.p.Pos(w.Pos), fmt.Sprintf("%s [path: %s] (required: %s)", w.Reason, w.Trace, reqs))
+				c.r.Bad(s.rule+"/"+where+"/"+l, c.p.Pos(w.Pos), fmt.Sprintf("%s [path: %s]", w.Reason, w.Trace))
 			}
 		} else {
 			c.r.OK(s.rule+"/"+where+"/"+l, c.p.Pos(s.fn.Pos()), fmt.Sprintf("%d site(s), all paths: %s", res.Labels[l], reqs))
